@@ -31,6 +31,41 @@ TRUSTED_BASE = [
 ]
 
 
+STALE = b"\xa5STALE-OUTPUT-OF-AN-EARLIER-RUN\n" * 700      # ~22 KB: longer than most outputs
+
+
+def make_stale(path):
+    """the output path already exists and holds a longer file from an earlier run (a command must replace it, not write over its head)"""
+    with open(path, "wb") as fh:
+        fh.write(STALE)
+
+
+def was_written(path) -> bool:
+    """has the command written this output (as opposed to: the stale file of make_stale is still there / nothing is there)?"""
+    if not os.path.exists(path):
+        return False
+    with open(path, "rb") as fh:
+        return fh.read(len(STALE) + 1) != STALE
+
+
+def run_cli(args, cwd, timeout=120):
+    """the real command line (argparse and all) in its own interpreter; the log file goes to cwd"""
+    env = dict(os.environ)
+    env["PYTHONPATH"] = str(REPO)
+    p = subprocess.run([PY, str(REPO / "suit_generator" / "cli.py")] + [str(a) for a in args], cwd=cwd, env=env, capture_output=True, text=True, timeout=timeout)
+    return p.returncode, (p.stdout + p.stderr)[-1500:]
+
+
+def spellings(n: int):
+    """the ways a number is written on a command line; each must be read as the number it denotes"""
+    out = [str(n), hex(n), "0x%X" % n, "0x%08x" % n]
+    return list(dict.fromkeys(out))
+
+
+# decimal numbers whose digits are also hex digits of a plausible width, powers of ten, and identifiers as Nordic writes them
+CLI_NUMBERS = [12345678, 40022100, 99999999, 10000000, 4096, 65536, 16, 100, 255, 256, 0, 7, 0x40022100, 0x7FFFFFE0, 0xFFFFFFFF, 1234, 20240926]
+
+
 def ensure_repo_on_path():
     p = str(REPO)
     if p not in sys.path:
